@@ -41,7 +41,7 @@ def handle (op : String) (args res : List String) : Option Verdict :=
       let m : Float := tauf taup es
       let m2 : Float := tauf (taup * (1 + 4 * epsF)) es
       let tol := 64 * kapE (1 - es * Float.abs es) * epsF * Float.abs m + 4 * Float.abs (m2 - m)
-      if !(taufConv taup es) then .skip "five Newton iterations do not reach the tolerance of Math::tauf (open finding F84): nothing to compare" else
+      if !(taufConv taup es) then .skip "the Newton loop of Math::tauf runs into its cap (50 iterations since 707b423, finding F88): nothing to compare" else
       if sameF m v || Float.abs (m - v) ≤ tol then .ok else .bad s!"Math::tauf({shw taup}, {shw es}) = {shw v}, Newton model {shw m} (tolerance {tol})"
     | _, _ => .bad "parse"
   | "psfwd" => some <|
@@ -73,7 +73,7 @@ def handle (op : String) (args res : List String) : Option Verdict :=
       let kp := kapE (e2mOfF f)
       let tlat := 1e-13 * kp + 4 * Float.abs (mlat2 - mlat)
       let tk := 64 * kp * epsF * Float.abs r.k + 4 * Float.abs (r2.k - r.k)
-      if !(taufConv (psTaup P x y) P.es) then .skip "five Newton iterations do not reach the tolerance of Math::tauf (open finding F84): nothing to compare" else
+      if !(taufConv (psTaup P x y) P.es) then .skip "the Newton loop of Math::tauf runs into its cap (50 iterations since 707b423, finding F88): nothing to compare" else
       if !(sameF mlat lat || Float.abs (mlat - lat) ≤ tlat) then .bad s!"PolarStereographic::Reverse: lat impl={shw lat} model={shw mlat} (tolerance {tlat})"
       else if !(sameF mlon lon || Float.abs (mlon - lon) ≤ 1e-13 || Float.abs (Float.abs (mlon - lon) - 360) ≤ 1e-13) then .bad s!"PolarStereographic::Reverse: lon impl={shw lon} model={shw mlon}"
       else if !(sameF r.k k || Float.abs (r.k - k) ≤ tk) then .bad s!"PolarStereographic::Reverse: k impl={shw k} model={shw r.k}"
